@@ -108,6 +108,53 @@ pub enum ZKind {
     Zero,
     /// every coefficient +-(gamma1-beta-1), signs from the seed
     AllExtreme,
+    /// z has ONE non-zero coefficient, solved modulo q from ExpandA(rho) so that coefficient `j` of polynomial `i` of
+    /// w'_approx = A z (t1 = 0) is exactly the `target`-th boundary value of Decompose / UseHint (w_targets); the hint
+    /// at that coefficient is set / cleared as `hinted` says. A verifier meets such values only from an adversary:
+    /// an honest signer never hints a coefficient whose low part is 0, and w' = q - gamma2 has probability 1/q.
+    SolvedW { i: u8, j: u8, target: u8, hinted: bool },
+}
+
+/// boundary values of Decompose / HighBits / UseHint for w' in [0, q)
+pub fn w_targets(p: &Params) -> Vec<i64> {
+    use crate::refmodel::Q;
+    let g2 = p.gamma2;
+    let mut v = vec![0, 1, Q - 1, Q - 2, g2 - 1, g2, g2 + 1, Q - g2 - 1, Q - g2, Q - g2 + 1, Q - 1 - g2];
+    let mmax = (Q - 1) / (2 * g2);
+    for m in [1, 2, mmax / 2, mmax - 1, mmax] {
+        for d in [-1i64, 0, 1] {
+            v.push(2 * g2 * m + d); // low part 0 (and its neighbours): UseHint must step down / up correctly
+            v.push(2 * g2 * m + g2 + d); // low part = gamma2: the tie of Decompose
+        }
+    }
+    v.retain(|x| *x >= 0 && *x < Q);
+    v
+}
+
+/// z (one non-zero coefficient, |c| <= bound) with (A z)[i][j] = target under the matrix of `rho`; `None` if no
+/// position yields a small enough c (does not happen in practice: about 3-12 % of the L*256 positions do)
+pub fn solve_single_z(p: &Params, rho: &[u8], i: usize, j: usize, target: i64, start: usize) -> Option<Vec<Poly>> {
+    use crate::refmodel::{pow_mod, Q};
+    let mut st = rf::SampleStats::default();
+    let a_hat = rf::expand_a(p, rho, &mut st);
+    let bound = p.gamma1 - p.beta - 1;
+    for n in 0..p.l * 256 {
+        let (l, k) = (((start + n) / 256) % p.l, (start + n) % 256);
+        let a: Poly = rf::ntt_inv(&a_hat[i][l]);
+        // coefficient j of a * X^k: + a[j-k] for j >= k, - a[256+j-k] otherwise
+        let av = if j >= k { a[j - k] } else { -a[256 + j - k] };
+        let av = av.rem_euclid(Q);
+        if av == 0 {
+            continue;
+        }
+        let c = rf::mod_pm(target.rem_euclid(Q) * pow_mod(av, (Q - 2) as u64) % Q, Q);
+        if c != 0 && c.abs() <= bound {
+            let mut z = vec![rf::ZERO; p.l];
+            z[l][k] = c;
+            return Some(z);
+        }
+    }
+    None
 }
 
 #[derive(Clone, Debug, PartialEq, Eq, Hash, Serialize, Deserialize)]
@@ -136,7 +183,13 @@ pub struct ForgeSpec {
 }
 
 pub fn forge_spec(max_msg: u32, plant: BoxedStrategy<ZVal>) -> impl Strategy<Value = ForgeSpec> {
-    let zkind = prop_oneof![4 => Just(ZKind::Uniform), 1 => Just(ZKind::Small), 1 => Just(ZKind::Zero), 1 => Just(ZKind::AllExtreme)];
+    let zkind = prop_oneof![
+        4 => Just(ZKind::Uniform),
+        1 => Just(ZKind::Small),
+        1 => Just(ZKind::Zero),
+        1 => Just(ZKind::AllExtreme),
+        3 => (any::<u8>(), any::<u8>(), any::<u8>(), any::<bool>()).prop_map(|(i, j, target, hinted)| ZKind::SolvedW { i, j, target, hinted }),
+    ];
     let hkind = prop_oneof![
         1 => Just(HKind::Empty),
         3 => any::<u8>().prop_map(HKind::Weight),
@@ -172,6 +225,7 @@ pub fn make_z(p: &Params, seed: u64, kind: &ZKind, plants: &[(u8, u8, ZVal)]) ->
                         -bound
                     }
                 }
+                ZKind::SolvedW { .. } => 0, // replaced in build_forge (needs rho)
             })
         })
         .collect();
@@ -245,8 +299,32 @@ pub struct ForgeBuilt {
 
 pub fn build_forge(p: &Params, s: &ForgeSpec) -> ForgeBuilt {
     let pk = t1_zero_pk(p, &s.rho.bytes());
-    let z = make_z(p, s.seed, &s.zkind, &s.plants);
-    let h = make_h(p, s.seed, &s.hkind);
+    let mut z = make_z(p, s.seed, &s.zkind, &s.plants);
+    let mut h = make_h(p, s.seed, &s.hkind);
+    if let ZKind::SolvedW { i, j, target, hinted } = &s.zkind {
+        let (i, j) = (*i as usize % p.k, *j as usize);
+        let t = w_targets(p);
+        let target = t[*target as usize % t.len()];
+        if let Some(zs) = solve_single_z(p, &s.rho.bytes(), i, j, target, (s.seed % 4096) as usize) {
+            z = zs;
+            debug_assert_eq!(rf::mod_q(rf::w_approx(p, &pk, &vec![0u8; p.ctilde_len()], &z)[i][j]), target);
+        }
+        // the hint at the solved coefficient is as requested; total weight stays <= omega
+        if h[i][j] == 0 && *hinted {
+            let weight: i64 = h.iter().map(|q| q.iter().sum::<i64>()).sum();
+            if weight as usize >= p.omega {
+                'outer: for hp in h.iter_mut() {
+                    for x in hp.iter_mut() {
+                        if *x == 1 {
+                            *x = 0;
+                            break 'outer;
+                        }
+                    }
+                }
+            }
+        }
+        h[i][j] = i64::from(*hinted);
+    }
     let m = s.msg.bytes();
     let ctx = s.ctx.bytes();
     let mode = mode_of(s.mode);
